@@ -32,14 +32,17 @@ from tangermeme.annotate import annotate_seqlets
 from tangermeme.tools.tomtom import tomtom
 
 SCOPE = {
-    'quick': '10 seeded configurations (4-6 queries of mixed length 1-14, one up to 25; 3-6 targets of length 1-14; PWM '
-             'columns one-hot, on grids 1/2, 1/4, 1/10 or continuous; n_score_bins in {20,50,100}; rc on/off; hashing off / 100 '
-             'bins) + 2 fixed one-hot configurations; per configuration: every query alone vs after a length-19 / 6 / 1 query, twice, sandwiched (1 thread); whole list with every thread count 1..16 (n_jobs=k; thread mask k in {1,2,7,16} with '
-             'n_jobs=-1), chunk sizes 1-3, 8 permutations, 8 subsets, 8 duplications, and for the configurations with <= 4 '
-             'queries every ordered sub-list (all permutations of all subsets) with 1 thread; n_nearest = 1..n_targets; '
-             '4 annotate_seqlets configurations (8 one-hot seqlets of length 1-15, 5 motifs) x 12 sub-lists',
-    'thorough': 'same families, configurations until the time budget (several hundred), up to 8 queries, every ordered '
-                'sub-list for <= 5 queries, 20 permutations / subsets / duplications each, n_nearest at 3 thread counts',
+    'quick': '10 seeded configurations (3-6 queries of length 1-14, always one of length 1 and one of length 10-25; 3-6 targets '
+             'of length 1-14; PWM columns one-hot, on grids 1/2, 1/4, 1/10 or continuous; n_score_bins in {20,50,100}; rc on/off; '
+             'hashing off / 100 bins) + 2 fixed one-hot configurations; per configuration: every query alone vs after a '
+             'length-19 / 6 / 1 query, twice, sandwiched (1 thread); whole list with every thread count 1..16 (n_jobs=k; thread '
+             'mask k in {1,2,7,16} with n_jobs=-1); chunk sizes 1-3; 8 permutations, 8 subsets, 8 duplications; for the '
+             'configurations with <= 4 queries every ordered sub-list (all permutations of all subsets) with 1 thread; '
+             'n_nearest = 1..n_targets; 4 annotate_seqlets configurations (8 one-hot seqlets of length 1-15, 5 motifs) x 12 '
+             'sub-lists / orders / duplications, n_nearest 1-5, n_jobs in {1,2,4,16}',
+    'thorough': 'same families, configurations until the time budget (about a hundred), up to 8 queries, both thread-count '
+                'mechanisms for every k in 1..16, every ordered sub-list for <= 5 queries, 20 permutations / subsets / '
+                'duplications each, n_nearest at thread counts 1, 3, 16, 24 annotate_seqlets sub-lists per configuration',
 }
 
 ALPH = 'ACGT'
@@ -358,7 +361,10 @@ FIXED = [
 
 
 def _batch_section(rep, cfg, ci, rng, thorough):
-    nq = len(mats(cfg['Q']))
+    Qs_, Ts_ = mats(cfg['Q']), mats(cfg['T'])
+    if degenerate(Qs_, Ts_, cfg['rc']) or degenerate(mats(POISON), Ts_, cfg['rc']):
+        return False                     # tomtom raises ZeroDivisionError on such sets: nothing to compare
+    nq = len(Qs_)
     allq = list(range(nq))
     n_var = 20 if thorough else 8
 
@@ -395,6 +401,7 @@ def _batch_section(rep, cfg, ci, rng, thorough):
         for th in ([1, 3, MAX_THREADS] if thorough else [1 if k % 2 else 3]):
             case = dict(cfg, kind='nearest', n_nearest=k, sched={'n_jobs': th})
             _emit(rep, case, check_nearest(case), 'n_nearest', ('n', ci, k, th), sample=(k == 2 and ci == 0))
+    return True
 
 
 def _annot_section(rep, ai, rng, thorough):
@@ -408,6 +415,9 @@ def _annot_section(rep, ai, rng, thorough):
     base = {'kind': 'annotate', 'xseed': rng.randrange(10 ** 9), 'n_examples': n_ex, 'length': L, 'seqlets': seq,
             'T': [{'seed': rng.randrange(10 ** 9), 'lens': [rng.randint(1, 10) for _ in range(5)], 'grid': grid, 'alpha': 0.3, 'pool': 0}],
             'rc': bool(ai % 2), 'n_target_bins': None, 'n_score_bins': 100}
+    X_, motifs_ = _annot_inputs(base)
+    if degenerate([X_[e, :, a:b].numpy() for e, a, b in seq], [m.numpy() for m in motifs_.values()], base['rc']):
+        return 0
     allq = list(range(len(seq)))
     for v in range(24 if thorough else 12):
         if v == 0:
@@ -420,6 +430,7 @@ def _annot_section(rep, ai, rng, thorough):
             order = allq[::-1]
         case = dict(base, order=order, n_nearest=rng.randint(1, 5), n_jobs=rng.choice([1, 1, 2, 4, MAX_THREADS]))
         _emit(rep, case, check_annotate(case), 'annotate_seqlets', ('a', ai, v), sample=(v == 1 and ai == 0))
+    return 1
 
 
 def run(rep):
@@ -428,25 +439,26 @@ def run(rep):
     _warm(rep)
     if MAX_THREADS < 16:
         rep.note('only %d numba threads available: thread counts 1..%d covered' % (MAX_THREADS, MAX_THREADS))
-    ci = 0
+    ci = n_ann = n_deg = k = 0
     for cfg in FIXED:
         _batch_section(rep, cfg, ci, rng, thorough)
         ci += 1
-    n_cfg = 10 ** 9 if thorough else 10
-    n_ann = 0
-    for k in range(n_cfg):
+    n_cfg = 10 ** 9 if thorough else 10 + len(FIXED)
+    while ci < n_cfg:
         if rep.left() < (30 if thorough else 10):
             rep.note('time budget reached after %d configurations' % ci)
             break
-        _batch_section(rep, _config(rng, thorough, k), ci, rng, thorough)
+        k += 1
+        if not _batch_section(rep, _config(rng, thorough, k), ci, rng, thorough):
+            n_deg += 1
+            continue
         ci += 1
-        if k % 4 == 0 and (thorough or n_ann < 4):
-            _annot_section(rep, n_ann, rng, thorough)
-            n_ann += 1
+        if ci % 3 == 0 and (thorough or n_ann < 4):
+            n_ann += _annot_section(rep, n_ann, rng, thorough)
     while not thorough and n_ann < 4 and rep.left() > 5:
-        _annot_section(rep, n_ann, rng, thorough)
-        n_ann += 1
-    rep.note('%d query/target configurations, %d annotate_seqlets configurations' % (ci, n_ann))
+        n_ann += _annot_section(rep, n_ann, rng, thorough)
+    rep.note('%d query/target configurations (%d generated ones skipped: a column equidistant from all target columns), '
+             '%d annotate_seqlets configurations' % (ci, n_deg, n_ann))
 
 
 def replay(case):
